@@ -66,7 +66,7 @@ func genC12(r *core.Rand, run int) *MuxScenario {
 				case 6:
 					op = RegOp{Kind: "regconn", Target: tgt, Fail: r.PickS("refl:0", "refl:1", "refl:2", "refl:3", "refl:2c", "refl:3c", "refl:0e", "refl:1e", "refl:end")}
 				case 7:
-					op = RegOp{Kind: "regconn", Target: tgt, Fail: "cancel"}
+					op = RegOp{Kind: "regconn", Target: tgt, Fail: r.PickS("cancel", "cancel-mid", "cancel-mid")}
 				}
 			}
 			ops = append(ops, op)
@@ -244,7 +244,7 @@ func oracleRegistryConcurrent(prop string, mr *muxRun, res *RunResult) *Violatio
 				add(linInput{Kind: "drop", Op: rr.Op, Label: label}, linOutput{Dropped: rr.Dropped}, rr.Invoke, rr.Return)
 			default:
 				mustFail := rr.Op.Fail == "cancel" || rr.Op.Fail == "dead" || strings.HasPrefix(rr.Op.Fail, "refl:") && (reflJ(rr.Op.Fail) == "0" || reflJ(rr.Op.Fail) == "1" && len(rr.AdvAt) > 0)
-				mayFail := strings.HasPrefix(rr.Op.Fail, "refl:") && !mustFail
+				mayFail := strings.HasPrefix(rr.Op.Fail, "refl:") && !mustFail || rr.Op.Fail == "cancel-mid"
 				if rr.Err != nil {
 					cnt[cFailedRegistration]++
 				}
